@@ -269,6 +269,12 @@ def _stored_back(f: Fn, c: ast.Call, construct: ast.AST, node: str) -> bool:
     if isinstance(construct, (ast.ListComp, ast.GeneratorExp)):
         # the comprehension's element is the call (or the pair containing it)
         elt = construct.elt
+        if isinstance(construct, ast.GeneratorExp):
+            # a bare generator stored as node.value is consumed by the first pass over it (PyYAML's constructor, a second reference
+            # through an alias, a later transform): it must be materialised
+            p_ = parent(construct)
+            if not (isinstance(p_, ast.Call) and call_name(p_) in ('list', 'tuple') and p_.args and p_.args[0] is construct):
+                return False
         if not (elt is c or (isinstance(elt, ast.Tuple) and any(x is c for x in elt.elts))):
             return False
         st = enclosing_stmt(construct)
@@ -2535,7 +2541,7 @@ def r12_sinks(ctx):
                 ok = isinstance(e, ast.Call) and isinstance(e.func, ast.Attribute) and e.func.attr == 'open' \
                     and norm(e.func.value) == io and f.has_guard(e, 'isinstance(%s, Path)' % io, True, expand=False)
                 mode = const_str(e.args[0]) if ok and e.args else None
-                ok = ok and mode == ('w' if is_dump else 'r')
+                ok = ok and mode == ('w' if is_dump else 'r') and len(e.args) == 1 and not e.keywords
                 r4.check(ok, '%s: with %s (only for a Path, text mode)' % (f.fi.qual, norm(e)), f.key('with:%s' % norm(e)[:30]), f.loc(w),
                          'a context manager is entered on %s: either a stream handed in by the caller is closed, or the file is '
                          'not opened in text mode %r' % (norm(e), 'w' if is_dump else 'r'))
@@ -2583,6 +2589,18 @@ def r12_sinks(ctx):
             if dflt is not None:
                 d[p_.arg] = norm(dflt)
         sigs[key] = {k: d.get(k) for k in ('indent', 'ensure_ascii')}
+    # the options are also accepted by position: the two functions (and their Protocol declarations) list them in the same order
+    orders = {}
+    for key in ['yatiml.dumper:dumps_json_function.DumpsJsonFunction.__call__', 'yatiml.dumper:dump_json_function.DumpJsonFunction.__call__',
+                'yatiml.dumper:DumpsJsonFunctionType.__call__', 'yatiml.dumper:DumpJsonFunctionType.__call__']:
+        if not P.has_func(key):
+            continue
+        a_ = P.func(key).node.args
+        orders[key] = [x.arg for x in a_.posonlyargs + a_.args + a_.kwonlyargs if x.arg in ('indent', 'ensure_ascii')]
+    r5.check(len({tuple(v) for v in orders.values()}) == 1 and len(orders) >= 2, 'indent and ensure_ascii come in the same order in every '
+             'JSON __call__ signature', 'yatiml.dumper:json-option-order', 'yatiml/dumper.py', 'the JSON dump functions take their options '
+             'in different orders (%s): a positional `dump_json(obj, sink, 2)` formats differently from `dumps_json(obj, 2)`'
+             % {k.split(':')[1]: v for k, v in orders.items()})
     vals = list(sigs.values())
     r5.check(vals[0] == vals[1] == {'indent': 'None', 'ensure_ascii': 'True'}, 'defaults indent=None, ensure_ascii=True in both',
              'yatiml.dumper:json-defaults', 'yatiml/dumper.py', 'JSON option defaults differ or changed: %s' % sigs)
